@@ -269,9 +269,9 @@ static void oracle_C12(const Case &c, vf::Stats &st) {
   st.add("applications_compared"); st.outcomes.insert(vf::mix(vf::fnv(showc(got)) + ref_reject));
   if (ex.defs[0].pattern.size() >= 3) st.sample("{\"pattern\":" + vf::jstr(show(ex.defs[0].pattern)) + ",\"rejected\":" + (ref_reject ? "true" : "false") + "}", 4);
 }
-static Level fam_patterns(int k) {
-  return {"all patterns<=" + std::to_string(k) + " over 17 symbols", [=](const CB &cb) {
-            auto S = pattern_symbols(); int V = (int)S.size();
+static Level fam_patterns(int k, bool lists_only = false) {
+  return {"all patterns<=" + std::to_string(k) + (lists_only ? " over 7 list-related symbols" : " over 17 symbols"), [=](const CB &cb) {
+            auto S = pattern_symbols(); if (lists_only) S = {"<A>", "<P>", "<V>", ",", ";", ")", "foo"}; int V = (int)S.size();
             for (int len = 1; len <= k; len++) { std::vector<int> ix(len, 0);
               for (;;) { std::string pat, inst; for (int i = 0; i < len; i++) { pat += S[ix[i]] + " "; inst += instance_of(S[ix[i]]) + " "; }
                 std::string defs = "\nDEFINE " + pat + "AS zap ENDDEF\nDEFINE bar AS baz ENDDEF";
@@ -288,7 +288,7 @@ int main(int argc, char **argv) {
     o = [](const Case &c, vf::Stats &st) { if (c.budget == 1024) oracle_C11_compile(c, st); else oracle_C11(c, st); };
     L = {fam_compile_divergent(), fam_budget(2, 4), fam_budget(3, 6)}; if (T) L.push_back(fam_budget(4, 8));
   }
-  else if (args.prop == "C12") { o = oracle_C12; L = {fam_patterns(2), fam_patterns(3)}; if (T) L.push_back(fam_patterns(4)); }
+  else if (args.prop == "C12") { o = oracle_C12; L = {fam_patterns(2), fam_patterns(3), fam_patterns(5, true)}; if (T) { L.push_back(fam_patterns(4)); L.push_back(fam_patterns(6, true)); } }
   else { fprintf(stderr, "ERROR: unknown property %s\n", args.prop.c_str()); return 2; }
   return drv::run<Case>(args, L, o, {}, limit);
 }
